@@ -180,7 +180,7 @@ CHECKS["C18"] = dict(
 
 CHECKS["C19"] = dict(
     category="model_checking",
-    text="Eight a2ml_specification! invocations (two hand-written ones that together use every A2ML construct the macro accepts, six seeded definitions of the C18 generator) are compiled into the harness with the in-tree a2lmacros. The plain-A2ML constant of each is parsed by the library and its type tree compared by TLC with Resolve(decls) of A2ml.tla for the declaration list the invocation was rendered from. Conforming instances and deviations at the eleven IF_DATA sites are loaded with the constant as built-in definition; each block is judged by A2ml.tla, and the typed round trip is judged by TLC (TypedVerdict / TypedDocVerdict in Trace_A2ml): a valid block decodes, the stored block is valid and decodes to an equal value, an invalid block gives no value, the written file is byte-identical after every typed value was stored back; the values held by the typed value are exactly the leaves of the specification's value tree. Every single change of shape of each specification (shorter arrays, dropped dimensions, other scalar types, dropped members / tags, flipped block / sequence flags) is used as in-file definition and decoded with the unchanged typed code: no panic.",
+    text="Nine a2ml_specification! invocations (three hand-written ones that together use every A2ML construct the macro accepts, doc comments and equally named tagged items of different content; six seeded definitions of the C18 generator) are compiled into the harness with the in-tree a2lmacros. The plain-A2ML constant of each is parsed by the library and its type tree compared by TLC with Resolve(decls) of A2ml.tla for the declaration list the invocation was rendered from. Conforming instances and deviations at the eleven IF_DATA sites are loaded with the constant as built-in definition; each block is judged by A2ml.tla, and the typed round trip is judged by TLC (TypedVerdict / TypedDocVerdict in Trace_A2ml): a valid block decodes, the stored block is valid and decodes to an equal value, an invalid block gives no value, the written file is byte-identical after every typed value was stored back; the values held by the typed value are exactly the leaves of the specification's value tree. Every single change of shape of each specification (shorter arrays, dropped dimensions, other scalar types, dropped members / tags, flipped block / sequence flags) is used as in-file definition and decoded with the unchanged typed code: no panic.",
     design_ref="DESIGN.md §4.10, §6 C19",
     note="The set of invocations is fixed at build time. Constructs the macro refuses at compile time (arrays of enums / structs, an anonymous struct as sequence item) cannot be part of it and are listed in DESIGN.md. Typed values are compared with the block as multisets of leaves.",
     technique="TLA+ spec (A2ml.tla) evaluated by TLC on observed executions: type trees, IF_DATA blocks and typed load/store relations recorded from macro-generated code in the harness (trace validation)",
